@@ -494,8 +494,12 @@ def case(draw, with_links=True, max_res=8, mixed_nrexcl=False, routes=("json", "
         files.append({"kind": "ff", "blocks": [], "links": link_idx, "mods": []})
     elif ff_blocks or links:
         files.append({"kind": "ff", "blocks": ff_blocks, "links": link_idx, "mods": []})
-    for i in itp_blocks:
-        files.append({"kind": "itp", "blocks": [i], "links": [], "mods": []})
+    if len(itp_blocks) > 1 and draw(st.integers(0, 2)) == 0:
+        # several molecule types in one .itp file, in any order
+        files.append({"kind": "itp", "blocks": list(draw(st.permutations(itp_blocks))), "links": [], "mods": []})
+    else:
+        for i in itp_blocks:
+            files.append({"kind": "itp", "blocks": [i], "links": [], "mods": []})
     files = list(draw(st.permutations(files)))
     explicit = []
     if explicit_links and route == "json" and draw(st.integers(0, 1)) == 0:
